@@ -20,6 +20,10 @@ var vC16Functions = []string{
 	`(defn f [#p #r] (+ (force #r) (force #p)))`,          // two lazy, forced in reverse order
 	`(defn f [q & rest] (list q rest))`,                   // variadic tail is strict
 	`(defn f [#p & rest] (begin (t 555) (list (force #p) rest)))`, // lazy then variadic
+	// the name was bound before, to a function of another shape (strict where the new one is lazy, and the reverse)
+	`(defn f [p q] (+ p q)) (def cnt 0) (defn f [#p q] (cond (< cnt 2) (begin (set cnt (+ cnt 1)) (f (t (+ q cnt)) q)) (force #p)))`,
+	`(defn f [#p #q] 0) (def cnt 0) (defn f [p q] (cond (< cnt 2) (begin (set cnt (+ cnt 1)) (f (t (+ q cnt)) q)) (+ p q)))`,
+	`(defn f [p #q] 0) (def cnt 0) (defn f [#p q] (cond (< cnt 1) (begin (set cnt (+ cnt 1)) (f (t 5) q)) (substitute #p)))`,
 	// force and substitute in every order on one lazy argument: forcing never
 	// changes the source, recovering the source never forces
 	`(defn f [#p q] (list (force #p) (substitute #p)))`,
